@@ -8,6 +8,7 @@ import re
 import resource
 import shutil
 import subprocess
+import threading
 import time
 
 VERIF = os.path.dirname(os.path.dirname(os.path.abspath(__file__)))
@@ -56,7 +57,7 @@ class Job:
                  config='le', loop_contracts=None, owners=None, clause_map=None,
                  timeout=600, solver=None, extra_cbmc=(), extra_cc=(), canary=True,
                  function=None, kind='', replay=None, bounded=None, includes=(), ignore_funcs=(),
-                 assumptions=(), unwindset=None, no_dfcc=False, obj_bits=None, chunk=None, chunk_par=1, unwind=None):
+                 assumptions=(), unwindset=None, no_dfcc=False, obj_bits=None, chunk=None, chunk_par=1, unwind=None, fallback=None, no_unwinding_assertions=False):
         self.name = name
         self.src = src                  # text of the harness translation unit
         self.sources = list(sources)    # repository sources (relative to REPO) compiled in unmodified
@@ -85,6 +86,9 @@ class Job:
         self.chunk_par = chunk_par
         self.unwind = unwind            # {function: bound}: BOUNDED stand-in, resolved to --unwindset on the instrumented binary
         self.chunk = chunk              # solve the CBMC properties in groups of this size with --slice-formula
+        self.fallback = fallback        # Job (or callable returning one) to run when this obligation cannot be BUILT on the current tree
+        self.no_unwinding_assertions = no_unwinding_assertions   # bounded stand-in that deliberately cuts a non-terminating loop
+        self.fallback_of = None         # set on the fallback job actually run: (name of the primary, reason)
 
     def ident(self):
         return re.sub(r'[^A-Za-z0-9_.-]', '_', self.name + '__' + self.config)
@@ -114,6 +118,7 @@ class JobResult:
         self.cmds = []
         self.loop_contract_mode = None
         self.used_lib = False
+        self.fallback_note = None
 
     def failed(self):
         return [p for p in self.props if p.status == 'FAILURE']
@@ -200,6 +205,9 @@ def symbol_map(symtab_text, func, names, line_range=None):
         entries.append((m.group(1), int(lm.group(1)) if lm else None))
     res = []
     for n in names:
+        if n.startswith('::'):          # a global (harness ghost): '::name'
+            res.append('%s,%s' % (n[2:], n[2:]))
+            continue
         c = [(s, l) for s, l in entries if s.startswith(func + '::') and s.split('::')[-1] == n]
         if len(c) > 1 and line_range:
             c = [(s, l) for s, l in c if l is not None and line_range[0] <= l <= line_range[1]]
@@ -207,6 +215,34 @@ def symbol_map(symtab_text, func, names, line_range=None):
             return None, 'local %r of %s not found uniquely (%d candidates)' % (n, func, len(c))
         res.append('%s,%s' % (n, c[0][0]))
     return ';'.join(res), None
+
+
+def all_locals(symtab_text, func, before_line=None):
+    """Every block-scoped local of `func` in the goto symbol table -> (assigns targets, symbol map entries).
+    Used for loops whose contract claims nothing about the locals (invariant `true`): the frame is then
+    "all locals of the function", computed from the tree as it is, so adding or renaming a local cannot
+    break the obligation."""
+    targets, smap = [], []
+    n = 0
+    for blk in symtab_text.split('\n\n'):
+        m = re.search(r'^Symbol\.*: (\S+)$', blk, re.M)
+        t = re.search(r'^Type\.*: (.*)$', blk, re.M)
+        fl = re.search(r'^Flags\.*: (.*)$', blk, re.M)
+        if not (m and t and fl):
+            continue
+        sym, ty, flags = m.group(1), t.group(1), fl.group(1)
+        if not re.match(r'^%s::\d+(::\d+)*::[A-Za-z_]\w*$' % re.escape(func), sym):
+            continue
+        if 'lvalue' not in flags or 'parameter' in flags:
+            continue
+        lm = re.search(r'^Location\.*: .*line (\d+)', blk, re.M)
+        if before_line is not None and lm and int(lm.group(1)) >= before_line:
+            continue            # declared inside the loop body: not alive at the loop head, assignable anyway
+        alias = 'vp_loc%d' % n
+        n += 1
+        smap.append('%s,%s' % (alias, sym))
+        targets.append('__CPROVER_object_whole(%s)' % alias if '[' in ty else alias)
+    return targets, smap
 
 
 def locate_case_arm(src_path, func, label):
@@ -241,7 +277,48 @@ def loops_of(show_loops_text, func):
     return out
 
 
+# Reasons that mean "the obligation could not be built on this tree" (the code was restructured: a helper changed its
+# signature, a loop was rewritten so that the loop contract no longer attaches).  They say nothing about the property;
+# the obligation's fallback (a coarser or bounded formulation that does not depend on those details) is run instead.
+STRUCTURAL = ('goto-cc failed', 'loop contract for', 'loop of ', 'bounded stand-in: loops of', 'goto-instrument failed',
+              'loop contract silently dropped')
+_FB_DONE = {}
+RESOURCE = ('solver failure', 'Out of memory', 'out-of-memory', 'unexpected response', 'produced no result list', 'output unparsable',
+            'std::bad_alloc', 'MemoryError')
+_FB_LOCK = threading.Lock()
+
+
 def run_job(job, workroot, keep=False):
+    if os.environ.get('VERIF_FORCE_FALLBACK') and job.fallback is not None:
+        res = JobResult(job)          # self-test of the fallbacks on a tree where the primaries can be built
+        res.reason = 'goto-cc failed: (forced by VERIF_FORCE_FALLBACK)'
+    else:
+        res = _run_job_retries(job, workroot, keep)
+    if res.status == 'undecided' and job.fallback is not None and any(res.reason.startswith(x) for x in STRUCTURAL):
+        fj = job.fallback() if callable(job.fallback) else job.fallback
+        key = fj.name + '/' + fj.config
+        with _FB_LOCK:
+            first = key not in _FB_DONE
+            _FB_DONE[key] = True
+        if not first:           # several obligations share one fallback (helpers of one example): it runs once
+            r = JobResult(job)
+            r.status = 'superseded'
+            r.reason = 'cannot be built on this tree (%s); covered by fallback obligation %s' % (res.reason[:120].replace('\n', ' '), fj.name)
+            return r
+        fj.fallback_of = (job.name, res.reason[:300].replace('\n', ' '))
+        fres = _run_job_retries(fj, workroot, keep)
+        fres.fallback_note = 'fallback for %s: %s' % (job.name, res.reason[:200].replace('\n', ' '))
+        if fres.status == 'failed' and fj.bounded:
+            # an unwinding assertion that fails in a bounded fallback means "bound too small", not a violation
+            real = [p for p in fres.failed() if p.cls != 'unwind']
+            if not real:
+                fres.status = 'undecided'
+                fres.reason = 'bounded fallback inconclusive: unwinding bound exceeded (%s)' % fres.fallback_note
+        return fres
+    return res
+
+
+def _run_job_retries(job, workroot, keep=False):
     """Runs one obligation; if CBMC runs out of object identifiers (default 2^8 objects) the
     run is repeated with more object bits."""
     res = _run_job_once(job, workroot, keep)
@@ -321,6 +398,16 @@ def _run_job_once(job, workroot, keep=False):
                         ent['decreases'] = d['DEC']
                     if 'ASG' in d:
                         ent['assigns'] = d['ASG']
+                    if lc.get('all_locals'):
+                        rc3, sl3, _ = _run(['goto-instrument', '--show-loops', a_gb], wd, 120, res.cmds)
+                        heads = [ln for nn, ln in loops_of(sl3, func) if nn == int(lc.get('loop_id', 0))]
+                        tg, extra = all_locals(st, func, heads[0] if heads else None)
+                        if not tg:
+                            res.reason = 'loop contract for %s cannot be attached: no locals found' % func
+                            res.wall = time.time() - t0
+                            return res
+                        ent['assigns'] = ', '.join(tg + ([d['ASG']] if 'ASG' in d else []))
+                        ent['symbol_map'] = ';'.join(extra + ([sm] if sm else []))
                     entries.append(ent)
                 funcs.append({func: entries})
             lcf = os.path.join(wd, 'loops.json')
@@ -365,7 +452,7 @@ def _run_job_once(job, workroot, keep=False):
     if job.no_dfcc:
         cb += ['--function', job.entry]
     if job.unwindset:
-        cb += ['--unwindset', job.unwindset, '--unwinding-assertions']
+        cb += ['--unwindset', job.unwindset] + (['--no-unwinding-assertions'] if job.no_unwinding_assertions else ['--unwinding-assertions'])
     if job.obj_bits:
         cb += ['--object-bits', str(job.obj_bits)]
     # kissat is the default back end: MiniSat's run time on the larger obligations varies by two orders of magnitude
@@ -525,7 +612,7 @@ def trace_for(job, res, prop_name, timeout=300):
     if job.no_dfcc:
         cb += ['--function', job.entry]
     if job.unwindset:
-        cb += ['--unwindset', job.unwindset, '--unwinding-assertions']
+        cb += ['--unwindset', job.unwindset] + (['--no-unwinding-assertions'] if job.no_unwinding_assertions else ['--unwinding-assertions'])
     if job.obj_bits:
         cb += ['--object-bits', str(job.obj_bits)]
     log = []
@@ -568,6 +655,25 @@ def run_jobs(jobs, workroot, nproc=None, keep=False, progress=None):
             done += 1
             if progress:
                 progress(done, len(jobs), results[i])
+    # Back-end failures (the SAT solver ran out of memory while 16 obligations were being solved side by side, CBMC died
+    # without a result list) say nothing about the property: such obligations are solved again ONE AT A TIME, with the
+    # CBMC properties split into groups (--slice-formula), before anything is reported.
+    for i, r in enumerate(results):
+        if r is None or r.status != 'undecided' or not any(x in r.reason for x in RESOURCE):
+            continue
+        j = r.job
+        if not j.chunk:
+            j.chunk, j.chunk_par = 40, 2
+        j.timeout = max(j.timeout, 1800)
+        try:
+            r2 = run_job(j, workroot, keep)
+        except Exception as e:
+            r2 = JobResult(j)
+            r2.reason = 'driver exception on retry: %r' % (e,)
+        r2.warnings.append('solved again serially after a back-end failure: %s' % r.reason[:160].replace('\n', ' '))
+        results[i] = r2
+        if progress:
+            progress(done, len(jobs), r2)
     return results
 
 
